@@ -78,6 +78,49 @@ ReqNeedsDigest(be, o) ==
   ELSE { <<"API.auto_serial_with_crypto", o.autoSerial.out = "Ok">>,
          <<"API.import_without_ski_defaults_to_sha256", o.importWithoutSki.out = "Skip" \/ (o.importWithoutSki.out = "Ok" /\ o.importWithoutSki.detail = "sha256")>> }
 
+(* CidrSubnet::from_str: "<IPv4 or IPv6 literal>/<prefix length as a decimal u8>"; the subnet is (address, mask of the prefix length); *)
+(* a prefix longer than the address gives the full mask (documented by from_v4_prefix / from_v6_prefix)                            *)
+(* The driver offers random well-formed texts and a fixed list of malformed ones; the address part is not re-parsed here:          *)
+(* the clause speaks about the mask, the family and the refusals.                                                                 *)
+Digit(c) == c >= 48 /\ c <= 57
+SlashPositions(cps) == { i \in DOMAIN cps : cps[i] = 47 }
+RECURSIVE DecOf(_, _, _)
+DecOf(cps, i, acc) == IF i > Len(cps) THEN acc ELSE DecOf(cps, i + 1, acc * 10 + (cps[i] - 48))
+PrefixTextOk(cps, k) == k < Len(cps) /\ Len(cps) - k <= 3 /\ (\A i \in (k + 1)..Len(cps) : Digit(cps[i]) \/ (i = k + 1 /\ cps[i] = 43 /\ Len(cps) > k + 1))
+(* Deviation of the implementation that the specification names rather than hides: everything after a SECOND slash is      *)
+(* ignored ("10.0.0.0/8/9" is read as 10.0.0.0/8).                                                                        *)
+SeqMin(S) == CHOOSE x \in S : \A y \in S : x <= y
+ReqCidrParse(a, out, o) ==
+  LET sl == SlashPositions(a.cps) IN
+  IF sl = {} THEN { <<"API.cidr_text_needs_a_slash", out = "Err">> }
+  ELSE LET k == SeqMin(sl)
+           e == IF Cardinality(sl) >= 2 THEN SeqMin(sl \ {k}) - 1 ELSE Len(a.cps)      \* end of the prefix text
+       IN
+       IF ~(k < e /\ \A i \in (k + 1)..e : Digit(a.cps[i])) \/ e - k > 3
+       THEN { <<"API.cidr_no_panic_on_odd_prefix_text", out # "Panic">> }
+       ELSE LET p == DecOf(SubSeq(a.cps, 1, e), k + 1, 0) IN
+            IF p > 255 THEN { <<"API.cidr_prefix_beyond_u8_refused", out = "Err">> }
+            ELSE { <<"API.cidr_no_panic", out # "Panic">>,
+                   <<"API.cidr_mask_is_prefix_mask", out = "Ok" => o.view.mask = Mask(Len(o.view.b), IF p > 8 * Len(o.view.b) THEN 8 * Len(o.view.b) ELSE p)>>,
+                   <<"API.cidr_address_family", out = "Ok" => Len(o.view.b) \in {4, 16}>> }
+
+(* CertificateParams::default(): validity 1975-01-01 .. 4096-01-01 UTC, one attribute CN = "rcgen self signed cert" (UTF8String), *)
+(* nothing else requested; SHA-256 key identifiers with a crypto back end, an empty pre-specified one without                      *)
+ReqDefaultParams(be, o) == {
+  <<"API.default_validity", o.view.nb = [y |-> 1975, mo |-> 1, d |-> 1, h |-> 0, mi |-> 0, s |-> 0] /\ o.view.na = [y |-> 4096, mo |-> 1, d |-> 1, h |-> 0, mi |-> 0, s |-> 0]>>,
+  <<"API.default_subject", Len(o.view.dn) = 1 /\ o.view.dn[1].ty = "2.5.4.3" /\ o.cnUtf8 = "726367656e2073656c66207369676e65642063657274">>,
+  <<"API.default_nothing_else", o.view.sans = <<>> /\ o.view.ku = <<>> /\ o.view.eku = <<>> /\ o.view.custom = 0 /\ o.view.crldp = 0
+                                /\ o.view.nc.k = "none" /\ o.view.isCa.k = "NoCa" /\ o.view.serial.k = "auto" /\ ~o.view.aki>>,
+  <<"API.default_key_identifier_method", o.view.kid = (IF be = "none" THEN [k |-> "pre", b |-> <<>>] ELSE [k |-> "sha256", b |-> <<>>])>> }
+
+(* date_time_ymd: midnight UTC of a calendar date; anything that is not a date of the proleptic Gregorian calendar in -9999..9999 panics (documented) *)
+DaysInMonth(y, m) == CASE m \in {1, 3, 5, 7, 8, 10, 12} -> 31 [] m \in {4, 6, 9, 11} -> 30
+                       [] m = 2 -> (IF (y % 4 = 0 /\ y % 100 # 0) \/ y % 400 = 0 THEN 29 ELSE 28) [] OTHER -> 0
+ReqDateYmd(a, out, o) ==
+  IF a.mo >= 1 /\ a.mo <= 12 /\ a.d >= 1 /\ a.d <= DaysInMonth(a.y, a.mo) /\ a.y >= -9999 /\ a.y <= 9999
+  THEN { <<"API.date_time_ymd_is_midnight_utc", out = "Ok" /\ o = [y |-> a.y, mo |-> a.mo, d |-> a.d, h |-> 0, mi |-> 0, s |-> 0, ns |-> 0, off |-> 0]>> }
+  ELSE { <<"API.date_time_ymd_refuses_non_dates", out = "Panic">> }
+
 (* conversions into the pki-types wrappers return the same bytes as the accessors *)
 ReqConversions(o) == { <<"API.into_der_types_eq_accessors", o.certEq /\ o.csrEq /\ o.crlEq>> }
 =============================================================================
